@@ -7,45 +7,23 @@
 -/
 import GLua.Proofs.ApiStackRefine
 import GLua.Proofs.ApiCall
+import GLua.Proofs.ApiCallR
+import GLua.Proofs.ApiPCall
+import GLua.Proofs.ApiObj
+import GLua.Proofs.ApiPCallR
+import GLua.Model.ApiObj
+import GLua.Props.C04
+import GLua.Generated.OpcodeHelpers
+import GLua.Generated.ApiBodies
 import GLua.Generated.ApiDelegates
 
 namespace GLua.Props.C10
 open GLua GLua.ApiStack
 
-/-- one stack operation of the public API (pseudo-indices excluded by `wf`). -/
-inductive StackOp where
-  | push (v : OVal)
-  | pop (n : Nat)
-  | setTop (idx : Int)
-  | insert (v : OVal) (idx : Int)
-  | remove (idx : Int)
-  | replace (idx : Int) (v : OVal)
+/-! `StackOp`, `applyOp`, `run` (one API operation / a history of them on the Model) live in Model/ApiStack.lean. -/
 
-def applyOp (s : St) : StackOp → Except Err St
-  | .push v => push s v
-  | .pop n => pop s n
-  | .setTop i => setTop s i
-  | .insert v i => insert s v i
-  | .remove i => remove s i
-  | .replace i v => replace s i v
-
-/-- the list operation the Spec prescribes; `none` where the Spec prescribes no list (Pop of more than
-    there is = error; Insert at an index that names no position; Replace through a pseudo-index). -/
-def specOp (l : List OVal) : StackOp → Option (List OVal)
-  | .push v => some (StackSpec.push l v)
-  | .pop n => StackSpec.pop l n
-  | .setTop i => some (StackSpec.setTop l i)
-  | .insert v i => StackSpec.insert l v i
-  | .remove i => some (StackSpec.remove l i)
-  | .replace i v => if Generated.RegistryIndex < i then some (StackSpec.replace l i v) else none
-
-def run (s : St) : List StackOp → Except Err St
-  | [] => .ok s
-  | o :: r => applyOp s o >>= fun s' => run s' r
-
-def specRun (l : List OVal) : List StackOp → Option (List OVal)
-  | [] => some l
-  | o :: r => specOp l o >>= fun l' => specRun l' r
+/-! the list operation the Spec prescribes for one operation / a history: `StackSpec.specOp`, `StackSpec.specRun`. -/
+open GLua.StackSpec (specOp specRun)
 
 /-- **api_refines_list**, one operation: for every base, every caller prefix, every registry capacity /
     growth setting, every list content and every index (valid, 0, ±(top+1), beyond) at which the Spec
@@ -53,7 +31,7 @@ def specRun (l : List OVal) : List StackOp → Option (List OVal)
     base — everything that belongs to callers — unchanged, (iii) keeps the state well-formed with the same
     base; or it ends in the `registry overflow` Lua error.  It never ends in a Go panic. -/
 theorem api_refines_list_step {s : St} (hw : WF s) (o : StackOp) (l' : List OVal)
-    (hs : specOp (abs s) o = some l') : Refines s (applyOp s o) l' := by
+    (hs : specOp (abs s) o = some l') (hok : OpIdxOK s.base o) : Refines s (applyOp s o) l' := by
   cases o with
   | push v =>
     simp only [specOp, Option.some.injEq] at hs; subst hs
@@ -66,7 +44,7 @@ theorem api_refines_list_step {s : St} (hw : WF s) (o : StackOp) (l' : List OVal
     · cases hs
   | setTop i =>
     simp only [specOp, Option.some.injEq] at hs; subst hs
-    exact setTop_refines hw i
+    exact setTop_refines hw i hok
   | insert v i =>
     simp only [specOp] at hs
     have hi : i ≤ (abs s).length + 1 := by
@@ -81,35 +59,35 @@ theorem api_refines_list_step {s : St} (hw : WF s) (o : StackOp) (l' : List OVal
       · split at hs
         · omega
         · cases hs
-    have := insert_refines hw v i hi
+    have := insert_refines hw v i hi hok
     unfold insertModelList at this
     rw [hs] at this
     exact this
   | remove i =>
     simp only [specOp, Option.some.injEq] at hs; subst hs
-    exact remove_refines hw i
+    exact remove_refines hw i hok
   | replace i v =>
     simp only [specOp] at hs
     split at hs
-    · cases hs; exact replace_refines hw i v (by assumption)
+    · cases hs; exact replace_refines hw i v (by assumption) hok
     · cases hs
 
 /-- **api_refines_list**, lifted to every history by induction: the whole run refines the Spec run,
     the caller prefix after any number of operations is the one on entry, and no history ends in a Go panic
     or in any error other than `registry overflow`. -/
 theorem api_refines_list : ∀ (ops : List StackOp) {s : St}, WF s → ∀ l', specRun (abs s) ops = some l' →
-    Refines s (run s ops) l'
-  | [], s, hw, l', hs => by
+    (∀ o ∈ ops, OpIdxOK s.base o) → Refines s (run s ops) l'
+  | [], s, hw, l', hs, _ => by
     simp only [specRun, Option.some.injEq] at hs; subst hs
     exact refines_ok_self hw
-  | o :: r, s, hw, l', hs => by
+  | o :: r, s, hw, l', hs, hok => by
     simp only [specRun] at hs
     cases h1 : specOp (abs s) o with
     | none => rw [h1] at hs; cases hs
     | some l1 =>
       rw [h1] at hs
       have hs' : specRun l1 r = some l' := hs
-      obtain ⟨hok, herr⟩ := api_refines_list_step hw o l1 h1
+      obtain ⟨hstep, herr⟩ := api_refines_list_step hw o l1 h1 (hok o (by simp))
       simp only [run]
       cases h2 : applyOp s o with
       | error e =>
@@ -117,8 +95,9 @@ theorem api_refines_list : ∀ (ops : List StackOp) {s : St}, WF s → ∀ l', s
         exact ⟨fun s' e' => (by cases e'), fun e' he' => (by cases he'; exact herr _ h2)⟩
       | ok s1 =>
         rw [bind_ok]
-        obtain ⟨ha, hp, hw1, hb⟩ := hok s1 h2
+        obtain ⟨ha, hp, hw1, hb⟩ := hstep s1 h2
         obtain ⟨ihok, iherr⟩ := api_refines_list r hw1 l' (by rw [ha]; exact hs')
+          (fun o' ho' => by rw [hb]; exact hok o' (List.mem_cons_of_mem _ ho'))
         refine ⟨fun s' e' => ?_, iherr⟩
         obtain ⟨a, b, c, d⟩ := ihok s' e'
         exact ⟨a, by rw [b, hp], c, by rw [d, hb]⟩
@@ -130,17 +109,19 @@ theorem pop_underflow {s : St} (hw : WF s) (n : Nat) (h : (abs s).length < n) : 
 
 /-- reads: `Get` at any non-pseudo index returns the list element, and nil outside the list
     (0, beyond ±top); `GetTop` is the length. -/
-theorem get_is_list_read {s : St} (hw : WF s) (idx : Int) (hidx : Generated.RegistryIndex < idx) :
+theorem get_is_list_read {s : St} (hw : WF s) (idx : Int) (hidx : Generated.RegistryIndex < idx)
+    (hok : IdxOK s.base idx) :
     get s idx = .ok (.val (StackSpec.get (abs s) idx)) ∧ getTop s = StackSpec.getTop (abs s) := by
-  refine ⟨get_refines hw idx hidx, ?_⟩
+  refine ⟨get_refines hw idx hidx hok, ?_⟩
   have := abs_length s hw.top_le
   have := hw.base_le
   unfold getTop currentLocalBase StackSpec.getTop
   omega
 
 theorem get_outside_is_nil {s : St} (hw : WF s) (idx : Int) (hidx : Generated.RegistryIndex < idx)
+    (hok : IdxOK s.base idx)
     (h : idx = 0 ∨ idx > (abs s).length ∨ idx < -((abs s).length : Int)) : get s idx = .ok (.val none) := by
-  rw [get_refines hw idx hidx]
+  rw [get_refines hw idx hidx hok]
   unfold StackSpec.get
   rw [resolve_none h]
 
@@ -149,7 +130,7 @@ theorem get_outside_is_nil {s : St} (hw : WF s) (idx : Int) (hidx : Generated.Re
 theorem insert_below_clamps {s : St} (hw : WF s) (v : OVal) (idx : Int)
     (h : idx = 0 ∨ idx < -((abs s).length : Int)) :
     Refines s (insert s v idx) ((abs s).insertIdx 0 v) := by
-  have := insert_refines hw v idx (by omega)
+  have := insert_refines hw v idx (by omega) (idxOK_nonpos _ (by omega))
   unfold insertModelList StackSpec.insert at this
   rw [resolve_none (by omega)] at this
   simp only at this
@@ -280,6 +261,280 @@ theorem failed_call_view (l : List OVal) (nargs : Nat) (hna : nargs + 1 ≤ l.le
   unfold StackSpec.get StackSpec.resolve
   rw [if_neg (by rw [hl]; omega), if_neg (by omega)]
 
+/-! ## the call contract, composed: `callR` as a whole -/
+
+/-- **call_contract_composed** (host callee, any body).  For EVERY caller state (any base, caller prefix, registry size
+    and growth setting, list content), every `nargs ≤ top-1`, every `NRet ∈ {MultRet} ∪ ℕ`, every way `metaCall` resolves
+    the called value (a function / an object with `__call`) and EVERY host-function body that respects its own
+    activation (`BodyOKAt`: any Go code — stack operations, calls, protected calls — that leaves a list of LValues
+    on its base, touches nothing below it and returns `0 ≤ n ≤ its top`), the whole of `callR`
+    (`pushCallFrame`'s Insert for `__call`, `initCallFrame`'s SetTop, the body, `callGFunction`'s CopyRange, the frame
+    pop and the final `SetTop(rbase+nret)`):
+      * enters the callee with exactly the arguments (preceded by the called object for `__call`) as its list, and
+        everything below — the caller's prefix, the rest of its list, the function slot — as it was (`CalleeEntry`);
+      * leaves the caller's list = `prefix ++ adjust (the callee's n top-most values) NRet`, where prefix = the list
+        without function and arguments ("the count a host function returns selects exactly its top-most values");
+      * leaves everything below the caller's base untouched, the caller's frame current, the state well-formed;
+      * fails only with `registry overflow`, `attempt to call a non-function object`, or the error the body raised —
+        never with a Go panic of its own. -/
+theorem call_contract_composed {s : St} (hw : WF s) (nargs : Nat) (hna : nargs + 1 ≤ (abs s).length) (nret : Int)
+    (hn : -1 ≤ nret) (kind : Callee) (body : GFunction)
+    (hb : ∀ c, CalleeEntry s nargs kind c → BodyOKAt body c) :
+    (∀ s', callRHost s nargs nret kind body = .ok s' →
+      ∃ c c' n, CalleeEntry s nargs kind c ∧ body c = .ok (c', n) ∧ 0 ≤ n ∧ n ≤ (abs c').length ∧
+        abs s' = StackSpec.call (abs s) nargs nret (StackSpec.topMost (abs c') n.toNat) ∧
+        callerPrefix s' = callerPrefix s ∧ WF s' ∧ s'.base = s.base) ∧
+    (∀ e, callRHost s nargs nret kind body = .error e →
+      e = overflow ∨ (kind = .none ∧ e = notCallable) ∨ ∃ c, CalleeEntry s nargs kind c ∧ body c = .error e) :=
+  callRHost_contract hw nargs hna nret hn kind body hb
+
+/-- every history of stack operations the Spec gives a list for, followed by `return n` with `n ≤` that list's
+    length, is such a body (by `api_refines_list`). -/
+theorem ops_body_ok (ops : List StackOp) (n : Int) {c : St} (hw : WF c) (l' : List OVal)
+    (hs : specRun (abs c) ops = some l') (hok : ∀ o ∈ ops, OpIdxOK c.base o) (h0 : 0 ≤ n) (hl : n ≤ l'.length) :
+    BodyOKAt (opsBody ops n) c := by
+  intro c' m e
+  unfold opsBody at e
+  cases hr : run c ops with
+  | error err => rw [hr, bind_err] at e; cases e
+  | ok c1 =>
+    rw [hr, bind_ok] at e
+    cases e
+    obtain ⟨a, b, w, d⟩ := (api_refines_list ops hw l' hs hok).1 c' hr
+    exact ⟨w, d, b, h0, by rw [a]; exact hl⟩
+
+/-- **call_contract_ops** — the composed contract with the callee spelled out: a host function (called directly or
+    through `__call`) that performs ANY history `ops` of Push/Pop/SetTop/Insert/Remove/Replace on what it received
+    and returns ANY `n ≤ its top` (arguments included, `n = 0` included).  The caller's list afterwards is exactly
+    `StackSpec.call`: prefix ++ adjust(the n top-most values of the callee's final list, NRet); caller prefix, base
+    and well-formedness are kept; the only possible error is `registry overflow`. -/
+theorem call_contract_ops {s : St} (hw : WF s) (nargs : Nat) (hna : nargs + 1 ≤ (abs s).length) (nret : Int)
+    (hn : -1 ≤ nret) (kind : Callee) (hk : kind ≠ .none) (ops : List StackOp) (n : Nat) (l' : List OVal)
+    (hs : specRun (calleeArgs (abs s) nargs kind) ops = some l') (hl : n ≤ l'.length)
+    (hidx : ∀ o ∈ ops, OpIdxOK (s.reg.top - nargs) o) :
+    Refines s (callRHost s nargs nret kind (opsBody ops n))
+      (StackSpec.call (abs s) nargs nret (StackSpec.topMost l' n)) := by
+  have hb : ∀ c, CalleeEntry s nargs kind c → BodyOKAt (opsBody ops n) c := fun c hc =>
+    ops_body_ok ops n hc.wf l' (by rw [hc.args]; exact hs) (by rw [hc.base]; exact hidx) (by omega) (by omega)
+  obtain ⟨hok, herr⟩ := callRHost_contract hw nargs hna nret hn kind _ hb
+  constructor
+  · intro s' e
+    obtain ⟨c, c', m, hce, hbd, _, _, a, b, w, d⟩ := hok s' e
+    unfold opsBody at hbd
+    cases hr : run c ops with
+    | error err => rw [hr, bind_err] at hbd; cases hbd
+    | ok c1 =>
+      rw [hr, bind_ok] at hbd
+      cases hbd
+      obtain ⟨a1, _⟩ := (api_refines_list ops hce.wf l' (by rw [hce.args]; exact hs)
+        (by rw [hce.base]; exact hidx)).1 c' hr
+      refine ⟨?_, b, w, d⟩
+      rw [a, a1, Int.toNat_natCast]
+  · intro e he
+    rcases herr e he with h | ⟨hk', _⟩ | ⟨c, hce, hbe⟩
+    · exact h
+    · exact absurd hk' hk
+    · unfold opsBody at hbe
+      cases hr : run c ops with
+      | error err =>
+        rw [hr, bind_err] at hbe
+        cases hbe
+        exact (api_refines_list ops hce.wf l' (by rw [hce.args]; exact hs) (by rw [hce.base]; exact hidx)).2 _ hr
+      | ok c1 => rw [hr, bind_ok] at hbe; cases hbe
+
+/-- a value that is neither a function nor has a function `__call`: the Lua error, raised before any frame exists. -/
+theorem call_not_callable {s : St} (hw : WF s) (nargs : Nat) (hna : nargs + 1 ≤ (abs s).length) (nret : Int)
+    (body : GFunction) : callRHost s nargs nret .none body = .error notCallable := by
+  have hlen := abs_length s hw.top_le
+  have hbl := hw.base_le
+  have hget : regGet s.reg ((s.reg.top : Int) - (nargs : Int) - 1) = .ok (.val (fnSlot (abs s) nargs)) :=
+    regGet_val hw (i := (abs s).length - nargs - 1) (by omega) (by omega)
+  unfold callRHost
+  simp only [hget, bind_ok]
+  rfl
+
+/-- **call_contract_lua** (Lua callee, abstracted as "produces a result list"): whatever the callee did, once its
+    OP_RETURN has left the adjusted results from the return base on with nothing above them and everything below
+    unchanged (C02's mechanism, here a hypothesis: `RetLeft`), the rest of `callR` gives the caller
+    `prefix ++ adjust results NRet`, prefix / base / well-formedness kept, `registry overflow` the only error. -/
+theorem call_contract_lua {s : St} (hw : WF s) (nargs : Nat) (hna : nargs + 1 ≤ (abs s).length) (nret : Int)
+    (hn : -1 ≤ nret) (results : List OVal) (afterLoop : Reg)
+    (h : RetLeft s (s.reg.top - nargs - 1) (StackSpec.adjust results nret) { reg := afterLoop, base := s.base }) :
+    Refines s (callRLua s nargs nret afterLoop) (StackSpec.call (abs s) nargs nret results) :=
+  callRLua_contract hw nargs hna nret hn results afterLoop h
+
+/-- nesting: a call made by a host function keeps exactly the three facts `BodyOKAt` asks of a body (well-formed,
+    same base, nothing below the base changed), so bodies that make calls — to any depth — are bodies again. -/
+theorem call_keeps_frame {s : St} (hw : WF s) (nargs : Nat) (hna : nargs + 1 ≤ (abs s).length) (nret : Int)
+    (hn : -1 ≤ nret) (kind : Callee) (body : GFunction) (hb : ∀ c, CalleeEntry s nargs kind c → BodyOKAt body c) :
+    ∀ s', callRHost s nargs nret kind body = .ok s' → WF s' ∧ s'.base = s.base ∧ callerPrefix s' = callerPrefix s := by
+  intro s' e
+  obtain ⟨_, _, _, _, _, _, _, _, b, w, d⟩ := (callRHost_contract hw nargs hna nret hn kind body hb).1 s' e
+  exact ⟨w, d, b⟩
+
+theorem body_then {f : St → Except Err St} {g : GFunction} {c : St}
+    (hf : ∀ c1, f c = .ok c1 → WF c1 ∧ c1.base = c.base ∧ callerPrefix c1 = callerPrefix c)
+    (hg : ∀ c1, f c = .ok c1 → BodyOKAt g c1) : BodyOKAt (fun c => f c >>= g) c := by
+  intro c' n e
+  cases hfc : f c with
+  | error err => simp only [hfc, bind_err] at e; cases e
+  | ok c1 =>
+    simp only [hfc, bind_ok] at e
+    obtain ⟨w1, d1, b1⟩ := hf c1 hfc
+    obtain ⟨w, d, b, h0, hl⟩ := hg c1 hfc c' n e
+    exact ⟨w, by rw [d, d1], by rw [b, b1], h0, hl⟩
+
+/-! ## protected calls: what `PCall` / `CallByParam{Protect: true}` leave on failure
+
+  Over the protected-call protocol model of C05 (Model/PCall.lean: `PCall`'s prologue and its two deferred closures,
+  `raiseError`, frames pushed and popped, nested protected calls, handlers), seen through the API's list view
+  `PCall.apiList` (registers `LocalBase … top-1` of the running activation). -/
+
+/-- **pcall_failed_list**.  A protected call with `nargs` arguments (entry `e`: the body frame is pushed, or the call
+    fails before a frame exists) made by ANY activation of ANY well-formed state, followed by ANY inner activity
+    `ops` — pushes (partial results), register and upvalue stores, frames pushed and popped (any nesting depth),
+    upvalues opened and closed, nested protected calls complete or still open, errors — and ended by ANY failing exit
+    `last` (error without handler / the handler returning / the handler itself failing / registry overflow when the
+    handler is to be called):
+      * the frame of the function that made the call is current again (`LocalBase` as before);
+      * its list is the list before the call WITHOUT function, arguments and anything the callee or the handler
+        pushed: `take (top - nargs - 1)` — the error value is not on the stack, it is what `PCall` returns:
+        delivered to this call exactly once (`deliveries … + 1`);
+      * every register below the caller's base (everything that belongs to ITS callers) keeps its value unless it
+        is an open upvalue (a captured Lua local, which a closure may legitimately assign).
+    Guard `hnu`: no open upvalue points into the caller's own list below the call window — always the case for a host
+    function (only OP_CLOSURE of a Lua frame opens upvalues); see `pcall_failed_list_full_fails` for why it is needed. -/
+theorem pcall_failed_list (s s0 s1 s2 : PCall.St) (hinv : PCall.Inv s) (nargs : Nat) (h : Option (PCall.V × Bool))
+    (e : PCall.Op) (ops : List PCall.Op) (last : PCall.Op) (he : PCall.IsEntry nargs h e)
+    (h0 : PCall.step PCall.fixedCfg s e = .ok s0) (hd0 : s0.pstack.length = s.pstack.length + 1)
+    (h1 : PCall.runAbove PCall.fixedCfg (s.pstack.length + 1) s0 ops = some s1)
+    (h2 : PCall.step PCall.fixedCfg s1 last = .ok s2) (hfail : PCall.isSuccessExit last = false)
+    (hout : s2.pstack.length ≤ s.pstack.length)
+    (hnu : ∀ u ∈ s.uvs, u < s.localBase ∨ s.top - nargs - 1 ≤ u) :
+    s2.localBase = s.localBase ∧
+    PCall.apiList s2 = (PCall.apiList s).take ((PCall.apiList s).length - nargs - 1) ∧
+    (∀ i, i < s.localBase → i ∉ s.uvs → s2.regs i = s.regs i) ∧
+    PCall.deliveries s.pstack.length s2.log = PCall.deliveries s.pstack.length s.log + 1 := by
+  obtain ⟨a, b, c⟩ := PCall.pcall_failed_list_uv_main s s0 s1 s2 hinv nargs h e ops last he h0 hd0 h1 h2 hfail hout hnu
+  exact ⟨a, b, c, (PCall.delivered_once_main s s0 s1 s2 hinv nargs h e ops last he h0 hd0 h1 h2 hfail hout).1⟩
+
+/-- without the guard the list statement is false — not through a defect but by the semantics of closures: a Lua
+    caller whose local (in its list below the call window) is captured; the protected body assigns it through the
+    upvalue and then fails; the assignment persists, as in Lua 5.1. -/
+def pcall_failed_list_full : Prop :=
+  ∀ (s s0 s1 s2 : PCall.St) (nargs : Nat) (h : Option (PCall.V × Bool)) (e : PCall.Op) (ops : List PCall.Op)
+    (last : PCall.Op), PCall.Inv s → PCall.IsEntry nargs h e →
+    PCall.step PCall.fixedCfg s e = .ok s0 → s0.pstack.length = s.pstack.length + 1 →
+    PCall.runAbove PCall.fixedCfg (s.pstack.length + 1) s0 ops = some s1 →
+    PCall.step PCall.fixedCfg s1 last = .ok s2 → PCall.isSuccessExit last = false →
+    s2.pstack.length ≤ s.pstack.length →
+    PCall.apiList s2 = (PCall.apiList s).take ((PCall.apiList s).length - nargs - 1)
+
+/-- a Lua frame (base 0) with locals in registers 1..2 (register 1 captured), a function in register 3. -/
+def witCaptured : PCall.St :=
+  { frames := [{ isG := false, base := 0 }], cur := some 0, top := 4, uvs := [1], regs := fun i => .num i }
+
+theorem witCaptured_inv : PCall.Inv witCaptured := by
+  refine ⟨rfl, ?_, ?_, ?_, ?_, ?_⟩
+  · intro i j bi bj hij hi hj
+    have : j = 0 := by
+      cases j with
+      | zero => rfl
+      | succ j => simp [witCaptured, PCall.St.bases] at hj
+    omega
+  · intro b hb; simp [witCaptured, PCall.St.bases] at hb; subst hb; simp [witCaptured]
+  · intro r hr; simp [witCaptured] at hr
+  · simp [witCaptured]
+  · intro r rest hp; simp [witCaptured] at hp
+
+theorem witCaptured_run :
+    ((PCall.step PCall.fixedCfg witCaptured (.enter 0 none true)).bind fun s0 =>
+      match PCall.runAbove PCall.fixedCfg 1 s0 [.setUpval 0 (.num 99)] with
+      | some s1 => PCall.step PCall.fixedCfg s1 (.raise (.raiseError 1 "boom"))
+      | none => .disabled).view? = some ([.num 99, .num 2], 0) ∧
+    (PCall.step PCall.fixedCfg witCaptured (.enter 0 none true)).flag? = some (false, 1) ∧
+    PCall.apiList witCaptured = [.num 1, .num 2, .num 3] := ⟨rfl, rfl, rfl⟩
+
+theorem pcall_failed_list_full_fails : ¬ pcall_failed_list_full := by
+  intro hfull
+  obtain ⟨key, kflag, klist⟩ := witCaptured_run
+  cases h0 : PCall.step PCall.fixedCfg witCaptured (.enter 0 none true) with
+  | ok s0 =>
+    rw [h0] at key kflag
+    simp only [PCall.Res.bind] at key
+    simp only [PCall.Res.flag?, Option.some.injEq, Prod.mk.injEq] at kflag
+    cases h1 : PCall.runAbove PCall.fixedCfg 1 s0 [.setUpval 0 (.num 99)] with
+    | none => rw [h1] at key; simp [PCall.Res.view?] at key
+    | some s1 =>
+      rw [h1] at key
+      simp only at key
+      cases h2 : PCall.step PCall.fixedCfg s1 (.raise (.raiseError 1 "boom")) with
+      | ok s2 =>
+        rw [h2] at key
+        simp only [PCall.Res.view?, Option.some.injEq, Prod.mk.injEq] at key
+        have := hfull witCaptured s0 s1 s2 0 none _ _ _ witCaptured_inv (Or.inl ⟨true, rfl⟩) h0 kflag.2 h1 h2 rfl
+          (by rw [key.2]; exact Nat.zero_le _)
+        rw [key.1, klist] at this
+        revert this
+        decide
+      | escaped t s' => rw [h2] at key; simp [PCall.Res.view?] at key
+      | disabled => rw [h2] at key; simp [PCall.Res.view?] at key
+  | escaped t s' => rw [h0] at key; simp [PCall.Res.bind, PCall.Res.view?] at key
+  | disabled => rw [h0] at key; simp [PCall.Res.bind, PCall.Res.view?] at key
+
+/-- with no stores through upvalues at all the guard is not needed, and every register below the call window — the
+    caller's own list included — keeps its value (`caller_registers_only_via_upvalues` of C05, list form). -/
+theorem pcall_failed_list_no_upvalue_stores (s s0 s1 s2 : PCall.St) (hinv : PCall.Inv s) (nargs : Nat)
+    (h : Option (PCall.V × Bool)) (e : PCall.Op) (ops : List PCall.Op) (last : PCall.Op)
+    (he : PCall.IsEntry nargs h e)
+    (h0 : PCall.step PCall.fixedCfg s e = .ok s0) (hd0 : s0.pstack.length = s.pstack.length + 1)
+    (h1 : PCall.runAbove PCall.fixedCfg (s.pstack.length + 1) s0 ops = some s1)
+    (h2 : PCall.step PCall.fixedCfg s1 last = .ok s2) (hfail : PCall.isSuccessExit last = false)
+    (hout : s2.pstack.length ≤ s.pstack.length)
+    (hno : ∀ o ∈ ops, PCall.noUpvalStore o = true) :
+    s2.localBase = s.localBase ∧
+    PCall.apiList s2 = (PCall.apiList s).take ((PCall.apiList s).length - nargs - 1) ∧
+    (∀ i, i < s.localBase → s2.regs i = s.regs i) :=
+  PCall.pcall_failed_list_main s s0 s1 s2 hinv nargs h e ops last he h0 hd0 h1 h2 hfail hout hno
+
+/-- non-vacuity of `pcall_failed_list`: a host function (frame base 3, list = registers 4..7) running above a Lua frame
+    whose local in register 1 is captured makes a protected call with one argument and a handler; the body pushes a
+    partial result, calls a Lua function that assigns the captured local and opens an upvalue of its own, a nested
+    protected call fails and is caught, then the body fails; the handler runs and fails too.  Afterwards the host
+    function's list is its first two values; register 1 (an open upvalue) changed, nothing else below its base did. -/
+def hostCaller : PCall.St :=
+  { frames := [{ isG := false, base := 0 }, { isG := true, base := 3 }], cur := some 1, top := 8, uvs := [1],
+    regs := fun i => .num i }
+
+example :
+    ((PCall.step PCall.fixedCfg hostCaller (.enter 1 (some (.ref 9, false)) true)).bind fun s0 =>
+      match PCall.runAbove PCall.fixedCfg 1 s0
+          [.push (.num 70), .push (.ref 2), .call false 0, .setTop 2, .setUpval 0 (.num 99), .openUpval 1,
+           .push (.ref 3), .enter 0 none true, .raise (.foreign "inner"), .push .nil,
+           .raise (.errorObj (.str "boom") 1), .push (.num 71)] with
+      | some s1 => PCall.step PCall.fixedCfg s1 (.raise (.raiseError 1 "handler failed"))
+      | none => .disabled).view? = some ([.num 4, .num 5], 0) ∧
+    PCall.apiList hostCaller = [.num 4, .num 5, .num 6, .num 7] ∧
+    (∀ u ∈ hostCaller.uvs, u < hostCaller.localBase ∨ hostCaller.top - 1 - 1 ≤ u) :=
+  ⟨rfl, rfl, by decide⟩
+
+/-- **pcall_contract_composed** — the same at registry level (capacity, growth, Go nil slots, the exact `SetTop`), with
+    the failing run spelled out: the protected callee is entered (`pushCallFrame`, directly or through `__call`), then
+    ANY number of nested activations each push ANY values (junk, partial results, a function and its arguments —
+    `levelsFit`: on their own list) and call on; the innermost pushes ANY partial results and raises (`raiseError` pushes
+    the message); a handler's frame above everything leaves ANYTHING (`hjunk`), returning or failing; PCall's deferred
+    function runs along ANY of its exit paths.  Then the caller's list is the list before without function and
+    arguments (`StackSpec.callFailed`) — no partial result of any depth, no message, nothing of the handler's — with the
+    caller prefix, the base and well-formedness kept; the run can only stop early with `registry overflow` or
+    `attempt to call a non-function object` (themselves failures the same recovery handles). -/
+theorem pcall_contract_composed {s : St} (hw : WF s) (nargs : Nat) (hna : nargs + 1 ≤ (abs s).length) (kind : Callee)
+    (levels : List Level) (hfit : levelsFit (nargs + (if kind = .viaCall then 1 else 0)) levels = true)
+    (last : List OVal) (msg : OVal) (hjunk : List OVal) (path : RecoverPath) :
+    (∀ s', pcallFailAt s nargs kind levels last msg hjunk path = .ok s' →
+      abs s' = StackSpec.callFailed (abs s) nargs ∧ callerPrefix s' = callerPrefix s ∧ WF s' ∧ s'.base = s.base) ∧
+    (∀ e, pcallFailAt s nargs kind levels last msg hjunk path = .error e → e = overflow ∨ e = notCallable) :=
+  pcallFailAt_contract hw nargs hna kind levels hfit last msg hjunk path
+
 /-! pseudo-indices: the cells a running host function sees. -/
 def cellsOf (p : PSt) (f : FnCells) : StackSpec.Cells :=
   { registry := p.registry, environ := f.env, globals := p.globals, upvalues := f.ups }
@@ -403,6 +658,177 @@ theorem pseudo_never_panics_partial {p : PSt} {f : FnCells} (hf : p.frame = some
   obtain ⟨w, hw⟩ := this
   exact ⟨_, pseudo_get hf idx w hw⟩
 
+/-! ## index resolution as a whole: `Get` / `Replace` at EVERY index (`lget` / `lreplace`: the complete if-chain) -/
+
+theorem pseudoOf_some {idx : Int} (hidx : idx ≤ Generated.RegistryIndex) : ∃ which, StackSpec.pseudoOf idx = some which := by
+  unfold StackSpec.pseudoOf
+  unfold Generated.RegistryIndex at hidx
+  by_cases h0 : idx = -10000
+  · exact ⟨_, by rw [if_pos h0]⟩
+  · by_cases h1 : idx = -10001
+    · exact ⟨_, by rw [if_neg h0, if_pos h1]⟩
+    · by_cases h2 : idx = -10002
+      · exact ⟨_, by rw [if_neg h0, if_neg h1, if_pos h2]⟩
+      · exact ⟨_, by rw [if_neg h0, if_neg h1, if_neg h2, if_pos (by omega)]⟩
+
+theorem pseudoOf_none {idx : Int} (hidx : Generated.RegistryIndex < idx) : StackSpec.pseudoOf idx = none := by
+  unfold StackSpec.pseudoOf
+  unfold Generated.RegistryIndex at hidx
+  rw [if_neg (by omega), if_neg (by omega), if_neg (by omega), if_neg (by omega)]
+
+/-- **get_every_index**: inside a running host function, for EVERY index — positive, 0, negative, beyond the top,
+    below the bottom, the three table pseudo-indices, every upvalue index however negative — `Get` returns exactly what
+    the manual prescribes (`StackSpec.getAny`: the list element, the cell, or nil).  It never panics and never fails.
+    The only guard is that `base + idx - 1` stays a Go `int` (see `get_never_panics_full_fails`). -/
+theorem get_every_index {l : LSt} {f : FnCells} (hw : WF l.st) (hf : l.p.frame = some f) (idx : Int)
+    (hok : IdxOK l.st.base idx) :
+    lget l idx = .ok (.val (StackSpec.getAny (abs l.st) (cellsOf l.p f) idx)) := by
+  have hr : Generated.RegistryIndex = -10000 := rfl
+  unfold lget StackSpec.getAny
+  by_cases h : idx > Generated.RegistryIndex
+  · rw [if_pos (Or.inr (Or.inr h)), pseudoOf_none h]
+    exact get_refines hw idx h hok
+  · rw [if_neg (by omega)]
+    obtain ⟨w, hw'⟩ := pseudoOf_some (idx := idx) (by omega)
+    rw [hw', pseudo_get hf idx w hw']
+    rfl
+
+/-- the same at top level (no running function), for every index that is not an upvalue index. -/
+theorem get_every_index_toplevel {l : LSt} (hw : WF l.st) (hf : l.p.frame = none) (idx : Int)
+    (hok : IdxOK l.st.base idx) (hnu : Generated.GlobalsIndex ≤ idx) :
+    lget l idx = .ok (.val (StackSpec.getAny (abs l.st)
+      { registry := l.p.registry, environ := l.p.threadEnv, globals := l.p.globals, upvalues := [] } idx)) := by
+  have hr : Generated.RegistryIndex = -10000 := rfl
+  have hg : Generated.GlobalsIndex = -10002 := rfl
+  unfold lget StackSpec.getAny
+  by_cases h : idx > Generated.RegistryIndex
+  · rw [if_pos (Or.inr (Or.inr h)), pseudoOf_none h]
+    exact get_refines hw idx h hok
+  · rw [if_neg (by omega)]
+    obtain ⟨h1, h2, h3, _⟩ := pseudo_toplevel hf none false
+    have : idx = -10000 ∨ idx = -10001 ∨ idx = -10002 := by omega
+    rcases this with h | h | h <;> subst h
+    · rw [show (-10000 : Int) = Generated.RegistryIndex from rfl, h1]; rfl
+    · rw [show (-10001 : Int) = Generated.EnvironIndex from rfl, h3]; rfl
+    · rw [show (-10002 : Int) = Generated.GlobalsIndex from rfl, h2]; rfl
+
+/-- **read_outside_is_nil**, every index: 0, anything beyond the top, anything below the bottom of the list down to
+    the pseudo-index range, and every upvalue index beyond the function's upvalues (down to the most negative `int`)
+    reads nil. -/
+theorem read_outside_is_nil {l : LSt} {f : FnCells} (hw : WF l.st) (hf : l.p.frame = some f) (idx : Int)
+    (hok : IdxOK l.st.base idx)
+    (h : idx = 0 ∨ idx > (abs l.st).length ∨ (idx < -((abs l.st).length : Int) ∧ Generated.RegistryIndex < idx) ∨
+         idx < Generated.GlobalsIndex - f.ups.length) :
+    lget l idx = .ok (.val none) := by
+  have hr : Generated.RegistryIndex = -10000 := rfl
+  have hg : Generated.GlobalsIndex = -10002 := rfl
+  rw [get_every_index hw hf idx hok]
+  unfold StackSpec.getAny
+  by_cases hp : idx > Generated.RegistryIndex
+  · rw [pseudoOf_none hp]
+    show Except.ok (Slot.val (StackSpec.get (abs l.st) idx)) = _
+    unfold StackSpec.get
+    rw [resolve_none (by omega)]
+  · have hlt : idx < -10002 - (f.ups.length : Int) := by omega
+    unfold StackSpec.pseudoOf
+    rw [if_neg (by omega), if_neg (by omega), if_neg (by omega), if_pos (by omega)]
+    show Except.ok (Slot.val (if 1 ≤ (-10002 - idx).toNat ∧ (-10002 - idx).toNat ≤ f.ups.length
+      then f.ups.getD ((-10002 - idx).toNat - 1) none else none)) = _
+    rw [if_neg (by omega)]
+
+/-- a store through a pseudo-index never touches the value stack: not the list, not the caller's values, not a single
+    slot of the registry; and a store through a stack index never touches the cells behind the pseudo-indices. -/
+theorem pseudo_replace_keeps_stack {l l' : LSt} (idx : Int) (hidx : idx ≤ Generated.RegistryIndex) (v : OVal)
+    (isTable : Bool) (h : lreplace l idx v isTable = .ok l') : l'.st = l.st := by
+  have hr : Generated.RegistryIndex = -10000 := rfl
+  unfold lreplace at h
+  rw [if_neg (by omega)] at h
+  cases hp : replacePseudo l.p idx v isTable with
+  | error e => rw [hp, bind_err] at h; cases h
+  | ok p' => rw [hp, bind_ok] at h; cases h; rfl
+
+theorem stack_replace_keeps_cells {l l' : LSt} (idx : Int) (hidx : Generated.RegistryIndex < idx) (v : OVal)
+    (isTable : Bool) (h : lreplace l idx v isTable = .ok l') : l'.p = l.p := by
+  unfold lreplace at h
+  rw [if_pos (Or.inr (Or.inr hidx))] at h
+  cases hp : replace l.st idx v with
+  | error e => rw [hp, bind_err] at h; cases h
+  | ok st' => rw [hp, bind_ok] at h; cases h; rfl
+
+/-- a read through a pseudo-index does not depend on the value stack at all. -/
+theorem pseudo_get_ignores_stack (l : LSt) (st' : St) (idx : Int) (hidx : idx ≤ Generated.RegistryIndex) :
+    lget { l with st := st' } idx = lget l idx := by
+  have hr : Generated.RegistryIndex = -10000 := rfl
+  unfold lget
+  rw [if_neg (by omega), if_neg (by omega)]
+
+/-- **replace_every_index**: inside a running host function `Replace` at EVERY index either succeeds — on the list
+    as `StackSpec.replace` with the caller prefix untouched, or in the named cell with the whole stack untouched —
+    or ends in a Lua error (`registry overflow`, a non-table for registry / environment / globals); never a Go panic. -/
+theorem replace_every_index {l : LSt} {f : FnCells} (hw : WF l.st) (hf : l.p.frame = some f) (idx : Int)
+    (hok : IdxOK l.st.base idx) (v : OVal) (isTable : Bool) :
+    (∃ l', lreplace l idx v isTable = .ok l' ∧
+        ((Generated.RegistryIndex < idx ∧ abs l'.st = StackSpec.replace (abs l.st) idx v ∧
+            callerPrefix l'.st = callerPrefix l.st ∧ WF l'.st ∧ l'.p = l.p) ∨
+         (idx ≤ Generated.RegistryIndex ∧ l'.st = l.st))) ∨
+    (∃ m, lreplace l idx v isTable = .error (.luaError m)) := by
+  have hr : Generated.RegistryIndex = -10000 := rfl
+  by_cases h : idx > Generated.RegistryIndex
+  · obtain ⟨h1, h2⟩ := replace_refines hw idx v h hok
+    unfold lreplace
+    rw [if_pos (Or.inr (Or.inr h))]
+    cases hp : replace l.st idx v with
+    | error e => right; exact ⟨"registry overflow", by rw [bind_err, h2 e hp]; rfl⟩
+    | ok st' =>
+      left
+      obtain ⟨a, b, c, _⟩ := h1 st' hp
+      exact ⟨{ l with st := st' }, by rw [bind_ok], Or.inl ⟨h, a, b, c, rfl⟩⟩
+  · obtain ⟨w, hw'⟩ := pseudoOf_some (idx := idx) (by omega)
+    have := pseudo_replace hf idx w hw' v isTable
+    unfold lreplace
+    rw [if_neg (by omega)]
+    cases hs : StackSpec.pseudoSet (cellsOf l.p f) w v isTable with
+    | none =>
+      rw [hs] at this
+      obtain ⟨m, hm⟩ := this
+      right; exact ⟨m, by rw [hm, bind_err]⟩
+    | some c' =>
+      rw [hs] at this
+      obtain ⟨p', f', hp', _⟩ := this
+      left
+      exact ⟨{ l with p := p' }, by rw [hp', bind_ok], Or.inr ⟨by omega, rfl⟩⟩
+
+/-- full strength would be: `Get` never ends in a Go panic, whatever the index.  False of the code: Go's `int`
+    arithmetic wraps, so for `idx > MaxInt64 - base + 1` the register number `base + idx - 1` becomes negative, passes
+    the test `reg < Top()` and indexes the registry slice: `runtime error: index out of range [-9223372036854775807]`
+    (observed on the real code: `L.Get(math.MaxInt64)` inside any host function whose base is ≥ 2; `Replace` likewise).
+    Recorded as finding `C10-index-int-overflow` (far outside the property's index domain: not an "acceptable index" of the
+    manual either).  The second witness class — an upvalue index at top level — is `pseudo_never_panics_full_fails`. -/
+def get_never_panics_full : Prop :=
+  ∀ (l : LSt) (idx : Int), WF l.st → (∃ f, l.p.frame = some f) → ∀ site, lget l idx ≠ .error (.goPanic site)
+
+def overflowWitness : LSt :=
+  { st := { reg := { array := [.val (some (.int 900)), .val (some (.ref 7)), .val (some (.int 1)), .goNil],
+                     top := 3, growBy := 0, maxSize := 0 }, base := 2 },
+    p := { registry := none, globals := none, threadEnv := none, frame := some { env := none, ups := [] } } }
+
+theorem overflowWitness_wf : WF overflowWitness.st :=
+  ⟨by decide, by decide, fun j h1 h2 => by
+    have h3 : j < 3 := h2
+    have h4 : 2 ≤ j := h1
+    have : j = 2 := by omega
+    subst this; simp [overflowWitness]⟩
+
+theorem get_never_panics_full_fails : ¬ get_never_panics_full := by
+  intro h
+  exact h overflowWitness maxInt overflowWitness_wf ⟨_, rfl⟩ "registry.Get: index out of range" (by decide +kernel)
+
+/-- the partial statement: with the index arithmetic inside the `int` range (every index up to `MaxInt64 - base + 1`)
+    and a running function, `Get` at every index returns an LValue. -/
+theorem get_never_panics_partial {l : LSt} {f : FnCells} (hw : WF l.st) (hf : l.p.frame = some f) (idx : Int)
+    (hok : IdxOK l.st.base idx) : ∃ v, lget l idx = .ok (.val v) :=
+  ⟨_, get_every_index hw hf idx hok⟩
+
 /-- non-vacuity: a host function with two upvalues; index -10004 is its second upvalue, -10005 is beyond. -/
 def examplePSt : PSt :=
   { registry := some (.ref 1), globals := some (.ref 2), threadEnv := some (.ref 2),
@@ -429,6 +855,250 @@ def expectedDelegations : List (String × String) :=
 
 theorem api_delegates : expectedDelegations.all (fun d => Generated.apiDelegates.contains d) = true := by
   decide
+
+/-! ## object-level entries = the Lua operations
+
+  Three layers.  (1) Text facts regenerated from the tree on every run: the API entries that are single delegations
+  (`api_delegates` above), the helpers each opcode handler of vm.go's `jumpTable` calls (`opcode_delegates`), the
+  push / call / pop sequences of the entries that are not single delegations (`api_bodies`).  (2) Over the dispatch model
+  of C04 (`MetaModel`, tied to the real functions by the C04M correspondence): the API entry is the very function the
+  opcode uses, and it is the manual's event, for EVERY heap and EVERY operand pair (full where C04 proves it full,
+  with C04's explicit guards otherwise).  (3) Over the registry model: the handler-call sequence of ObjLen /
+  ToStringMeta / stringConcat and the `Concat` bracket restore the caller's list exactly. -/
+
+section ObjectOps
+open GLua.Meta GLua.MetaModel GLua.MetaProofs
+variable {N : Type}
+
+/-- (1) the opcode handlers call the helpers the API entries delegate to (`equals` with `raw = false` for OP_EQ). -/
+def expectedOpcodeHelpers : List (Nat × String) :=
+  [(Generated.OP_GETTABLE, "getField"), (Generated.OP_GETTABLEKS, "getFieldString"),
+   (Generated.OP_GETGLOBAL, "getFieldString"), (Generated.OP_SELF, "getFieldString"),
+   (Generated.OP_SETTABLE, "setField"), (Generated.OP_SETTABLEKS, "setFieldString"),
+   (Generated.OP_SETGLOBAL, "setFieldString"), (Generated.OP_EQ, "equals:false"), (Generated.OP_LT, "lessThan"),
+   (Generated.OP_CONCAT, "stringConcat"), (Generated.OP_LEN, "metaOp1")]
+
+theorem opcode_delegates :
+    expectedOpcodeHelpers.all (fun d => Generated.opcodeHelpers.any (fun e => e.1 == d.1 && e.2.contains d.2)) = true := by
+  decide
+
+/-- (1) the entries that are not single delegations: exactly these stack / dispatch calls, in this order. -/
+def expectedApiBodies : List (String × List String) :=
+  [("ObjLen", ["ls.metaOp1(v1, \"__len\")", "ls.Push(op)", "ls.Push(v1)", "ls.Call(1, 1)", "ls.reg.Pop()", "v1.(*LTable).Len()"]),
+   ("ToStringMeta", ["ls.metaOp1(lv, \"__tostring\")", "ls.Push(fn)", "ls.Push(lv)", "ls.Call(1, 1)", "ls.reg.Pop()"]),
+   ("Concat", ["ls.reg.Top()", "ls.reg.Push(value)", "stringConcat(ls, len(values), ls.reg.Top()-1)", "ls.reg.Top()",
+               "ls.reg.SetTop(top)", "LVAsString(ret)"])]
+
+theorem api_bodies : expectedApiBodies.all (fun d => Generated.apiBodies.contains d) = true := by decide
+
+/-- … and `stringConcat` calls a `__concat` handler with `Push(op); Push(lhs); Push(rhs); Call(2, 1); reg.Pop()`. -/
+theorem stringConcat_body :
+    (Generated.apiBodies.lookup "stringConcat").map (fun l => l.take 6)
+      = some ["L.metaOp2(lhs, rhs, \"__concat\")", "L.reg.Push(op)", "L.reg.Push(lhs)", "L.reg.Push(rhs)", "L.Call(2, 1)",
+              "L.reg.Pop()"] := by decide
+
+/-- (2) **api_entry_is_opcode_function**: each delegating entry IS the function its opcode calls — same function,
+    same argument order, same mode flag — for every heap and every operands. -/
+theorem api_entry_is_opcode_function (p : Prims N) (h : Heap N) (a b c : V N) (s : String) :
+    ApiObj.GetTable h a b = getField h a b ∧               -- OP_GETTABLE
+    ApiObj.GetField h a s = getFieldString h a s ∧         -- OP_GETTABLEKS, OP_SELF
+    ApiObj.GetGlobal h a s = getFieldString h a s ∧        -- OP_GETGLOBAL (on the function's environment)
+    ApiObj.SetTable h a b c = setField h a b c ∧           -- OP_SETTABLE
+    ApiObj.SetField h a s c = setFieldString h a s c ∧     -- OP_SETTABLEKS
+    ApiObj.SetGlobal h a s c = setFieldString h a s c ∧    -- OP_SETGLOBAL
+    ApiObj.Equal p h a b = equals p h a b false ∧          -- OP_EQ
+    ApiObj.LessThan p h a b = lessThan p h a b :=          -- OP_LT
+  ⟨rfl, rfl, rfl, rfl, rfl, rfl, rfl, rfl⟩
+
+/-- (2) **api_index_is_manual** — GetTable / GetField / GetGlobal and SetTable / SetField / SetGlobal are the manual's
+    `gettable_event` / `settable_event` chains (raw access first, `__index` / `__newindex` function → call with
+    `(table, key[, value])`, other value → repeat, depth bound `MAXTAGLOOP`), for EVERY heap and operands: full. -/
+theorem api_index_is_manual (h : Heap N) (obj key value g : V N) (name : String) :
+    ApiObj.GetTable h obj key = gettable h MAXTAGLOOP obj key ∧
+    ApiObj.GetField h obj name = gettable h MAXTAGLOOP obj (.str name) ∧
+    ApiObj.GetGlobal h g name = gettable h MAXTAGLOOP g (.str name) ∧
+    ApiObj.SetTable h obj key value = settable h MAXTAGLOOP obj key value ∧
+    ApiObj.SetField h obj name value = settable h MAXTAGLOOP obj (.str name) value ∧
+    ApiObj.SetGlobal h g name value = settable h MAXTAGLOOP g (.str name) value :=
+  ⟨C04.getField_refines_manual h obj key, C04.getFieldString_refines_manual h obj name,
+   C04.getFieldString_refines_manual h g name, C04.setField_refines_manual h obj key value,
+   C04.setFieldString_refines_manual h obj name value, C04.setFieldString_refines_manual h g name value⟩
+
+/-- (2) RawEqual is primitive equality and never calls a handler; GetMetatable honours `__metatable`: full. -/
+theorem api_rawequal_getmetatable_is_manual (p : Prims N) (h : Heap N) (a b hd : V N) (args : List (V N)) (post : Post) :
+    ApiObj.RawEqual p h a b = rawequal_fn p a b ∧ ApiObj.RawEqual p h a b ≠ .call hd args post ∧
+    ApiObj.GetMetatable h a = getmetatable_fn h a :=
+  ⟨(C04.raw_refines_manual p h a b a).2.2.2, (C04.raw_never_calls p h a b a hd args post).2.2.2,
+   C04.getmetatable_refines_manual h a⟩
+
+/-- (2) Equal / LessThan: full strength is false only through C04's non-function-handler class (a callable table in the
+    `__eq` / `__lt` slot is ignored: finding C04-nonfunction-handler); with function-or-nil handlers they are the manual's
+    `eq_event` / `lt_event` for every operand pair. -/
+def api_equal_full : Prop := ∀ (N : Type) (p : Prims N) (h : Heap N) (a b : V N), ApiObj.Equal p h a b = eq_event p h a b
+def api_lessthan_full : Prop :=
+  ∀ (N : Type) (p : Prims N) (h : Heap N) (a b : V N), ApiObj.LessThan p h a b = lt_event p h a b
+
+theorem api_equal_full_fails : ¬ api_equal_full := fun H => C04.eq_refines_manual_full_fails H
+theorem api_lessthan_full_fails : ¬ api_lessthan_full := fun H => C04.lt_refines_manual_full_fails H
+
+theorem api_equal_partial (p : Prims N) (h : Heap N) (a b : V N) (g : CompGuard h .eq a b) :
+    ApiObj.Equal p h a b = eq_event p h a b := C04.eq_refines_manual_partial p h a b g
+
+theorem api_lessthan_partial (p : Prims N) (h : Heap N) (a b : V N) (g : CompGuard h .lt a b) :
+    ApiObj.LessThan p h a b = lt_event p h a b := C04.lt_refines_manual_partial p h a b g
+
+example : CompGuard (C04.heapWith (.func 7)) .eq (.table 1) (.udata 1) ∧
+    ApiObj.LessThan C04.pInt C04.heapOnlyLt (.table 1) (.table 4) = .call (.func 5) [.table 1, .table 4] .truth := by
+  decide
+
+/-! ### ObjLen vs `#v` -/
+
+/-- **objlen_same_dispatch**: `ObjLen` and OP_LEN take the same decision for every operand and heap — the same
+    handler with the same argument, the same primitive length — except that where OP_LEN raises "attempt to get length"
+    ObjLen has no branch (returns 0) and that the handler's result is converted (`lenOfApi`). -/
+theorem objlen_same_dispatch (p : Prims N) (h : Heap N) (v : V N) : opLen p h v = ApiObj.lenOfApi (MetaModel.objLen p h v) := by
+  unfold opLen MetaModel.objLen
+  cases v <;> simp only [ApiObj.lenOfApi] <;> split <;> rfl
+
+/-- full strength: whatever `ObjLen` returns is (the Go int of) what `#v` evaluates to.  False of the code — recorded
+    finding C10-objlen-non-integer: (i) a userdata / number / nil without `__len`: `#v` raises, ObjLen returns 0;
+    (ii) a handler returning a non-number: `#v` is that value, ObjLen returns 0. -/
+def objlen_is_len_full : Prop :=
+  ∀ (N : Type) (p : Prims N) (h : Heap N) (toInt : N → Int) (v ret : V N),
+    ∃ n, ApiObj.lenValue p h v ret = .ok (.num n) ∧ ApiObj.ObjLen p h toInt v ret = toInt n
+
+theorem objlen_is_len_full_fails : ¬ objlen_is_len_full := fun H => by
+  obtain ⟨n, h1, _⟩ := H Int C04.pInt (C04.heapWith .nil) id (.udata 1) .nil
+  have hv : ApiObj.lenValue C04.pInt (C04.heapWith .nil) (.udata 1) .nil = .error .len := by decide
+  rw [hv] at h1
+  cases h1
+
+theorem objlen_nonnumber_result_lost :
+    ApiObj.lenValue C04.pInt (C04.heapWith (.func 7)) (.udata 1) (.str "x") = .ok (.str "x") ∧
+    ApiObj.ObjLen C04.pInt (C04.heapWith (.func 7)) id (.udata 1) (.str "x") = 0 := by decide
+
+/-- **objlen_is_len_partial** — the guard is exactly "`#v` evaluates to a number": then `ObjLen` returns Go's `int(..)`
+    of that number (exact for integral values; `int` truncates a fractional one), for every operand class: strings,
+    tables with or without `__len`, any value with a `__len` handler. -/
+theorem objlen_is_len_partial (p : Prims N) (h : Heap N) (toInt : N → Int) (v ret : V N) (n : N)
+    (hl : ApiObj.lenValue p h v ret = .ok (.num n)) : ApiObj.ObjLen p h toInt v ret = toInt n := by
+  unfold ApiObj.lenValue at hl
+  rw [objlen_same_dispatch] at hl
+  unfold ApiObj.ObjLen
+  cases hd : MetaModel.objLen p h v with
+  | none => rw [hd] at hl; simp [ApiObj.lenOfApi] at hl
+  | some a =>
+    rw [hd] at hl
+    cases a with
+    | raw x =>
+      simp only [ApiObj.lenOfApi, Except.ok.injEq] at hl
+      subst hl
+      rfl
+    | call hd' args post =>
+      simp only [ApiObj.lenOfApi, Except.ok.injEq] at hl
+      subst hl
+      rfl
+    | store t k w => simp [ApiObj.lenOfApi] at hl
+    | setmt o m => simp [ApiObj.lenOfApi] at hl
+    | error k => simp [ApiObj.lenOfApi] at hl
+    | next o => simp [ApiObj.lenOfApi] at hl
+
+example : ApiObj.lenValue C04.pInt (C04.heapWith (.func 7)) (.udata 1) (.num 42) = .ok (.num 42) ∧
+    ApiObj.ObjLen C04.pInt (C04.heapWith (.func 7)) id (.udata 1) (.num 42) = 42 ∧
+    ApiObj.ObjLen C04.pInt (C04.heapWith .nil) id (.table 5) .nil = 3 := by decide
+
+/-! ### ToStringMeta vs `tostring` -/
+
+/-- `tostring(v)` of this implementation IS `ToStringMeta` (baselib's `baseToString` pushes its result); with a
+    function-or-nil `__tostring` slot it is the manual's `tostring`: handler called with `(v)`, first result used. -/
+theorem api_tostringmeta_partial (p : Prims N) (h : Heap N) (e : V N) (g : FnOrNil (mtEvent h e .tostring)) :
+    toStringMeta p h e = tostring_fn p h e := C04.tostring_refines_manual_partial p h e g
+
+/-! ### Concat vs `e1 .. e2 .. … .. en` -/
+
+/-- **concat_is_lua_concat**: with at least one operand `Concat` performs exactly the handler calls of the Lua
+    expression — same handlers, same order, same arguments `(lhs, running result)` — and returns `LVAsString` of the
+    expression's value; errors coincide; nothing of the stack below is read.  (Guard: C04's — every `__concat` slot
+    holds a function or nil.) -/
+theorem concat_is_lua_concat (p : Prims N) (h : Heap N) (ret : V N → List (V N) → V N) (g : ConcatGuard h)
+    (values : List (V N)) (hne : values ≠ []) (below : Option (V N)) :
+    ApiObj.Concat p h ret values below =
+      .res (Meta.concat_fold p h ret values).1 ((Meta.concat_fold p h ret values).2.map (lvAsString p)) := by
+  unfold ApiObj.Concat
+  cases values with
+  | nil => exact absurd rfl hne
+  | cons v vs =>
+    simp only
+    rw [C04.concat_fold p h ret g]
+
+/-- … in particular a string result is returned as it is. -/
+theorem concat_string_result (p : Prims N) (h : Heap N) (ret : V N → List (V N) → V N) (g : ConcatGuard h)
+    (values : List (V N)) (hne : values ≠ []) (below : Option (V N)) (s : String)
+    (hr : (Meta.concat_fold p h ret values).2 = .ok (.str s)) :
+    ApiObj.Concat p h ret values below = .res (Meta.concat_fold p h ret values).1 (.ok s) := by
+  rw [concat_is_lua_concat p h ret g values hne below, hr]
+  rfl
+
+/-- full strength: the string `Concat` returns is the string form of a string-or-number value of the Lua expression.
+    False of the code when a `__concat` handler returns something else (a table, nil, a boolean …): the expression's
+    value is that object, `Concat` returns "" (`LVAsString`; the `string` return type cannot carry it) — finding
+    C10-concat-non-string, same kind as C10-objlen-non-integer. -/
+def concat_result_full : Prop :=
+  ∀ (N : Type) (p : Prims N) (h : Heap N) (ret : V N → List (V N) → V N) (values : List (V N))
+    (v : V N), ConcatGuard h → values ≠ [] → (Meta.concat_fold p h ret values).2 = .ok v → lvCanConvToString v = true
+
+theorem concat_result_full_fails : ¬ concat_result_full := fun H => by
+  have g : ConcatGuard (C04.heapWith (.func 7)) := by
+    intro m; unfold C04.heapWith; by_cases hm : m = 2 <;> simp [hm, FnOrNil, V.isFunc, V.isNil]
+  have := H Int C04.pInt (C04.heapWith (.func 7)) (fun _ _ => .table 9) [.table 1, .str "x"] (.table 9) g
+    (by simp) (by decide)
+  revert this
+  decide
+
+theorem concat_nonstring_result_lost :
+    ApiObj.Concat C04.pInt (C04.heapWith (.func 7)) (fun _ _ => .table 9) [.table 1, .str "x"] none
+      = .res [⟨.func 7, [.table 1, .str "x"]⟩] (.ok "") ∧
+    (Meta.concat_fold C04.pInt (C04.heapWith (.func 7)) (fun _ _ => .table 9) [.table 1, .str "x"]).2 = .ok (.table 9) := by
+  decide
+
+/-- with NO operand (no Lua expression corresponds) `Concat()` is not the empty string: `stringConcat(ls, 0, top-1)`
+    reads the register below the top — the activation's top-most value or, on an empty list, whatever belongs to the
+    caller — and returns its string form; on an empty registry it indexes the slice at -1.  Finding
+    C10-concat-no-operand (outside the property's "operand pairs"). -/
+theorem concat_no_operand_reads_stack (p : Prims N) (h : Heap N) (ret : V N → List (V N) → V N) :
+    ApiObj.Concat p h ret [] (some (.str "secret")) = .res [] (.ok "secret") ∧
+    ApiObj.Concat p h ret [] none = .goPanic "stringConcat: L.reg.Get(-1)" := ⟨rfl, rfl⟩
+
+end ObjectOps
+
+/-! ### (3) the stack traffic of ObjLen / ToStringMeta / stringConcat / Concat -/
+
+/-- **call_handler_contract**: `Push(fn); Push(a1)…; Call(n, 1); ret := reg.Pop()` with ANY handler body that respects
+    its activation (a host function; called directly or through `__call`): the handler receives exactly the arguments,
+    `ret` is its first result (nil when it returns none: its top-most value when it returns several is NOT taken — the
+    first of the `n` it selects), and afterwards the caller's list is EXACTLY the list before — nothing left, nothing
+    lost — with caller prefix, base and well-formedness kept; errors: `registry overflow`, not callable, or the body's. -/
+theorem call_handler_contract {s : St} (hw : WF s) (fn : OVal) (args : List OVal) (kind : Callee) (body : GFunction)
+    (hb : ∀ s1 c, CalleeEntry s1 args.length kind c → BodyOKAt body c) :
+    (∀ s' x, callHandler s fn args kind body = .ok (s', x) →
+      abs s' = abs s ∧ callerPrefix s' = callerPrefix s ∧ WF s' ∧ s'.base = s.base ∧
+      ∃ c c' n, abs c = handlerArgs fn args kind ∧ body c = .ok (c', n) ∧
+        x = .val ((StackSpec.topMost (abs c') n.toNat).headD none)) ∧
+    (∀ e, callHandler s fn args kind body = .error e →
+      e = overflow ∨ (kind = .none ∧ e = notCallable) ∨
+      ∃ c, abs c = handlerArgs fn args kind ∧ body c = .error e) :=
+  callHandler_contract hw fn args kind body hb
+
+/-- **concat_frame_restores**: `top := reg.Top(); Push(values…); stringConcat…; reg.SetTop(top)` leaves the caller's
+    list exactly as it was, for every number of operands, when the inner activity keeps the list (which every handler
+    call does, by `call_handler_contract`). -/
+theorem concat_frame_restores {s : St} (hw : WF s) (values : List OVal) (inner : St → Except Err St)
+    (hin : ∀ s1, WF s1 → ∀ s2, inner s1 = .ok s2 →
+      abs s2 = abs s1 ∧ callerPrefix s2 = callerPrefix s1 ∧ WF s2 ∧ s2.base = s1.base) :
+    (∀ s', concatFrame s values inner = .ok s' →
+      abs s' = abs s ∧ callerPrefix s' = callerPrefix s ∧ WF s' ∧ s'.base = s.base) ∧
+    (∀ e, concatFrame s values inner = .error e → e = overflow ∨ ∃ s1, WF s1 ∧ inner s1 = .error e) :=
+  concatFrame_restores hw values inner hin
 
 /-! non-vacuity: a concrete activation at a non-zero base with caller data below it, a list containing nil,
     and a history that exercises growth-free shifting in both directions. -/
@@ -471,5 +1141,98 @@ example :
       = some (3, 4, [some (.int 1)]) ∧
     StackSpec.callFailed (abs exampleSt) 1 = [some (.int 1)] := by
   decide
+
+/-! non-vacuity of the composed call contract: an activation at base 3 (caller data incl. a Go nil below it) holding
+    `[1, <callable r5>, 61, "61"]` calls r5 with two arguments.  The host callee inserts 7 in front, pops one, pushes nil
+    and returns 3 — one of the three is an argument it received. -/
+def exampleCall : St :=
+  { reg := { array := [.val (some (.int 900)), .val (some (.ref 7)), .goNil, .val (some (.int 1)), .val (some (.ref 5)),
+                       .val (some (.int 61)), .val (some (.str "61")), .goNil],
+             top := 7, growBy := 2, maxSize := 64 }, base := 3 }
+
+def exampleBody : List StackOp := [.insert (some (.int 7)) 1, .pop 1, .push none]
+
+theorem exampleCall_wf : WF exampleCall :=
+  ⟨by decide, by decide, fun j h1 h2 => by
+    have h3 : j < 7 := h2
+    have h4 : 3 ≤ j := h1
+    have : j = 3 ∨ j = 4 ∨ j = 5 ∨ j = 6 := by omega
+    rcases this with h | h | h | h <;> subst h <;> simp [exampleCall]⟩
+
+example : abs exampleCall = [some (.int 1), some (.ref 5), some (.int 61), some (.str "61")] ∧
+    calleeArgs (abs exampleCall) 2 .fn = [some (.int 61), some (.str "61")] ∧
+    calleeArgs (abs exampleCall) 2 .viaCall = [some (.ref 5), some (.int 61), some (.str "61")] ∧
+    specRun (calleeArgs (abs exampleCall) 2 .fn) exampleBody = some [some (.int 7), some (.int 61), none] ∧
+    StackSpec.call (abs exampleCall) 2 4 (StackSpec.topMost [some (.int 7), some (.int 61), none] 3)
+      = [some (.int 1), some (.int 7), some (.int 61), none, none] := by
+  refine ⟨by decide, by decide, by decide, by decide, by decide⟩
+
+/-- the Model run of that call, NRet = 4 (one nil of padding); through `__call` with
+    MultRet the callee sees the object first; a nested call made by the body (push a function, call it with
+    0 arguments for MultRet, return everything). -/
+example :
+    (callRHost exampleCall 2 4 .fn (opsBody exampleBody 3)).toOption.map (fun s => (abs s, callerPrefix s, s.base, s.reg.array.length))
+      = some ([some (.int 1), some (.int 7), some (.int 61), none, none],
+              [.val (some (.int 900)), .val (some (.ref 7)), .goNil], 3, 8) ∧
+    (callRHost exampleCall 2 (-1) .viaCall (opsBody [.remove 2] 2)).toOption.map (fun s => abs s)
+      = some [some (.int 1), some (.ref 5), some (.str "61")] ∧
+    (callRHost exampleCall 2 (-1) .fn (fun c =>
+        (push c (some (.ref 9)) >>= fun c1 => callRHost c1 0 (-1) .fn (opsBody [.push (some (.int 5)), .push none] 2))
+          >>= opsBody [] 4)).toOption.map (fun s => abs s)
+      = some [some (.int 1), some (.int 61), some (.str "61"), some (.int 5), none] := by
+  refine ⟨by decide, by decide, by decide⟩
+
+/-- `pcall_contract_composed`, non-vacuity: the activation of `exampleCall` makes a protected call with two arguments; the
+    callee pushes junk, a function and one argument and calls; that callee pushes a callable object and calls it through
+    `__call`; the innermost pushes two partial results and raises; a handler's frame leaves two more values and fails.
+    The registry grew from 8 to 17 slots on the way; the caller is left with `[1]` and its three caller slots. -/
+def exampleLevels : List Level :=
+  [{ pushed := [some (.int 70), some (.ref 8), some (.int 5)], nargs := 1, kind := .fn },
+   { pushed := [some (.ref 9)], nargs := 0, kind := .viaCall }]
+
+example : levelsFit 2 exampleLevels = true ∧
+    (pcallFailAt exampleCall 2 .fn exampleLevels [some (.int 71), some (.int 72)] (some (.str "626f6f6d"))
+        [some (.int 1), some (.int 2)] .handlerFailed).toOption.map
+      (fun s => (abs s, callerPrefix s, s.base, s.reg.top))
+      = some ([some (.int 1)], [.val (some (.int 900)), .val (some (.ref 7)), .goNil], 3, 4) ∧
+    StackSpec.callFailed (abs exampleCall) 2 = [some (.int 1)] := by
+  refine ⟨by decide, by decide, by decide⟩
+
+/-- `call_contract_lua`, non-vacuity: a Lua callee that returned `[8, 9]` to a caller wanting 1 value. -/
+example : RetLeft exampleCall 4 (StackSpec.adjust [some (.int 8), some (.int 9)] 1)
+    { reg := { exampleCall.reg with array := exampleCall.reg.array.set 4 (.val (some (.int 8))), top := 5 }, base := 3 } :=
+  ⟨rfl, by decide, by decide, fun j v h => by
+      have : j = 0 := by
+        have := (List.getElem?_eq_some_iff.mp h).1
+        have h1 : (StackSpec.adjust [some (.int 8), some (.int 9)] 1).length = 1 := by decide
+        omega
+      subst this
+      have : v = some (.int 8) := by
+        have h2 : (StackSpec.adjust [some (.int 8), some (.int 9)] 1)[0]? = some (some (.int 8)) := by decide
+        rw [h2] at h; cases h; rfl
+      subst this
+      decide,
+    fun j hj => by
+      have : j = 0 ∨ j = 1 ∨ j = 2 ∨ j = 3 := by omega
+      rcases this with h | h | h | h <;> subst h <;> decide⟩
+
+/-- non-vacuity: the activation of `exampleSt` (base 3, list `[1, nil, "61"]`) running `examplePSt`'s function:
+    reads at 2, 0, 4, -3, -4, -9999, at the registry index, at its second upvalue and far below it; the guard
+    holds for every index up to MaxInt64 - 2 and fails at MaxInt64 - 1, where the read is a Go panic. -/
+def exampleLSt : LSt := { st := exampleSt, p := examplePSt }
+
+example :
+    (([2, 0, 4, -3, -4, -9999, -10000, -10004, -10005, -9223372036854775808] : List Int).map fun i => lget exampleLSt i)
+      = [.ok (.val none), .ok (.val none), .ok (.val none), .ok (.val (some (.int 1))), .ok (.val none),
+         .ok (.val none), .ok (.val (some (.ref 1))), .ok (.val (some (.str "7570"))), .ok (.val none),
+         .ok (.val none)] ∧
+    exampleLSt.st.base = 3 ∧ IdxOK 3 (maxInt - 2) ∧ ¬ IdxOK 3 (maxInt - 1) ∧
+    lget exampleLSt (maxInt - 1) = .error (.goPanic "registry.Get: index out of range") := by
+  refine ⟨by decide +kernel, rfl, ?_, ?_, by decide +kernel⟩
+  · intro _; unfold maxInt; omega
+  · intro h
+    have := h (by unfold maxInt; omega)
+    unfold maxInt at this
+    omega
 
 end GLua.Props.C10
